@@ -63,6 +63,10 @@ pub fn probe_result(name: &str, arg: &Value) -> Value {
 /// wrapped in anyhow (the idiom `let n: i128 = param.try_into()?;`), otherwise a plain message.
 pub fn probe_error(name: &str, key: &str) -> anyhow::Error {
     let msg = format!("probe {name} refuses {key}");
+    // (a function written `let n: i128 = param.try_into()?` fails like this on a none argument)
+    if key == "none" || key.ends_with(",none]") {
+        return anyhow::Error::new(reval::Error::unexpected_val_type(reval::prelude::Value::None, "Value::Int"));
+    }
     if key.len() % 2 == 1 {
         anyhow::Error::new(reval::Error::ValueSerializationError(msg))
     } else {
